@@ -99,6 +99,21 @@ func (p *Plz) Run(timeout time.Duration, args ...string) PlzResult {
 			full = append(full, "--trace_file", tracef)
 		}
 	}
+	// plz defaults to (cores + 2) worker threads per invocation; many checks run many invocations side by
+	// side, so unless the caller chose a thread count itself, a moderate one is used (VERIF_PLZ_THREADS).
+	hasN := false
+	for _, a := range args {
+		if a == "-n" || a == "--num_threads" {
+			hasN = true
+		}
+	}
+	if len(args) > 0 && (args[0] == "build" || args[0] == "test" || args[0] == "cover") && !hasN {
+		n := os.Getenv("VERIF_PLZ_THREADS")
+		if n == "" {
+			n = "6"
+		}
+		args = append([]string{args[0], "-n", n}, args[1:]...)
+	}
 	full = append(full, args...)
 	ctx, cancel := context.WithTimeout(context.Background(), timeout)
 	defer cancel()
